@@ -152,6 +152,13 @@ impl FromStr for NetworkAddress {
     type Err = anyhow::Error;
 
     fn from_str(s: &str) -> Result<Self> {
+        // Accept our own `Display` rendering, "<ip:port> (<four-words>)": the socket
+        // address is authoritative, the words are a rendering of it.
+        let s = match s.split_once(" (") {
+            Some((socket_part, words_part)) if words_part.ends_with(')') => socket_part,
+            _ => s,
+        };
+
         // First try to parse as a socket address
         if let Ok(socket_addr) = SocketAddr::from_str(s) {
             return Ok(Self::new(socket_addr));
